@@ -3,7 +3,7 @@
    [get_components n A] is the statement-by-statement model of bct.get_components on an n x n
    matrix (None = BCTParamError); [path n A u v] = a chain of nonzero entries joins u and v. *)
 From Coq Require Import ZArith List Arith.
-From BCT Require Import Base.Mat Base.ListX Model.Components Proofs.Components Model.Distance Proofs.ComponentsDistance.
+From BCT Require Import Base.Mat Base.ListX Model.Components Proofs.Components Model.Distance Proofs.ComponentsDistance Proofs.ComponentsDistanceFull.
 Import ListNotations.
 Local Open Scope nat_scope.
 
@@ -59,21 +59,42 @@ Theorem C16_number_is_class_count : forall n A m,
     (forall v, v < n -> exists i, i < m /\ path n A (nth i reps 0) v).
 Proof. exact number_is_class_count. Qed.
 
-(* agreement with any distance routine whose finite entries are exactly the joined pairs
-   (the C03 theorems give that premise for distance_bin / breadthdist / reachdist; here it is
-   a hypothesis, and the harness checks the three routines directly) *)
-Theorem C16_agrees_with_distance : forall n A comps sizes (finite : nat -> nat -> Prop),
+(* agreement with the three distance routines of C03 (models of Model/Distance.v; that those models are the code is
+   C03's correspondence).  Unconditional: each routine's model always returns (C03's totality theorems) and, off the
+   diagonal, same label <=> finite entry (<=> reachability flag).  The former generic, conditional statement
+   "agrees with any routine whose finite entries are the joined pairs" survives only as the lemma
+   Proofs/Components.v:agrees_with_distance; it is no longer a C16 theorem. *)
+Theorem C16_agrees_with_distance_bin : forall n A comps sizes,
   get_components n A = Some (comps, sizes) ->
-  (forall u v, u < n -> v < n -> (finite u v <-> path n A u v)) ->
-  forall u v, u < n -> v < n -> (nth u comps 0 = nth v comps 0 <-> finite u v).
-Proof. exact agrees_with_distance. Qed.
+  exists D, distance_bin n A = Some D /\
+    forall u v, u < n -> v < n -> u <> v -> (nth u comps 0 = nth v comps 0 <-> D u v <> None).
+Proof. exact agrees_with_distance_bin_total. Qed.
 
-(* ... and for distance_bin the premise is a theorem of C03 (distance_bin_inf_iff, full correctness of
-   the distance_bin model): the labels agree with the finite entries of the distance_bin model *)
-Theorem C16_agrees_with_distance_bin : forall n A comps sizes D,
-  get_components n A = Some (comps, sizes) -> distance_bin n A = Some D ->
-  forall u v, u < n -> v < n -> u <> v -> (nth u comps 0 = nth v comps 0 <-> D u v <> None).
-Proof. exact agrees_with_distance_bin. Qed.
+Theorem C16_agrees_with_reachdist : forall n A comps sizes,
+  get_components n A = Some (comps, sizes) ->
+  exists R D, reachdist n A = Some (R, D) /\
+    forall u v, u < n -> v < n -> u <> v ->
+      (nth u comps 0 = nth v comps 0 <-> D u v <> None) /\
+      (nth u comps 0 = nth v comps 0 <-> R u v = true).
+Proof. exact agrees_with_reachdist. Qed.
+
+Theorem C16_agrees_with_breadthdist : forall n A comps sizes,
+  get_components n A = Some (comps, sizes) ->
+  exists R D, breadthdist n A = Some (R, D) /\
+    forall u v, u < n -> v < n -> u <> v ->
+      (nth u comps 0 = nth v comps 0 <-> D u v <> None) /\
+      (nth u comps 0 = nth v comps 0 <-> R u v = true).
+Proof. exact agrees_with_breadthdist. Qed.
+
+(* the diagonal of reachdist / breadthdist (shortest cycle through the node): finite exactly for the nodes that
+   have some connection, i.e. every node except isolated ones without a self-loop *)
+Theorem C16_reach_breadth_diag : forall n A comps sizes Rr Dr Rb Db,
+  get_components n A = Some (comps, sizes) ->
+  reachdist n A = Some (Rr, Dr) -> breadthdist n A = Some (Rb, Db) ->
+  forall u, u < n ->
+    (Dr u u <> None <-> exists w, w < n /\ A u w <> 0%Z) /\
+    (Db u u <> None <-> exists w, w < n /\ A u w <> 0%Z).
+Proof. exact reach_breadth_diag. Qed.
 
 (* non-vacuity: path 0-3-1, isolated node 2, weighted pair 4-5 with a nonzero diagonal entry;
    the edge (0,3) arrives before (1,3), so the item {1,3} has to merge the blocks {0,3} and {1} *)
@@ -85,6 +106,21 @@ Example C16_nonvacuous :
   /\ get_components 2 (of_rows 0%Z [[0;1]; [0;0]]%Z) = None.
 Proof. vm_compute. repeat split. Qed.
 
+(* non-vacuity of the distance family: on the same matrix all three C03 models return, 0 and 1 (same label 2) are at
+   finite distance 2, node 2 (alone in its component) is at infinite distance from 0 and from itself, and node 4
+   (self-loop) has a finite diagonal entry *)
+Example C16_distance_nonvacuous :
+  let A := of_rows 0%Z [[0;0;0;1;0;0]; [0;0;0;1;0;0]; [0;0;0;0;0;0];
+                        [1;1;0;0;0;0]; [0;0;0;0;7;-2]; [0;0;0;0;-2;0]]%Z in
+  match distance_bin 6 A, reachdist 6 A, breadthdist 6 A with
+  | Some D, Some (Rr, Dr), Some (Rb, Db) =>
+      D 0 1 = Some 2 /\ D 0 2 = None /\
+      Dr 0 1 = Some 2%Z /\ Dr 0 2 = None /\ Rr 0 1 = true /\ Rr 0 2 = false /\ Dr 2 2 = None /\ Dr 4 4 = Some 1%Z /\
+      Db 0 1 = Some 2 /\ Db 0 2 = None /\ Rb 0 1 = true /\ Rb 0 2 = false /\ Db 2 2 = None /\ Db 4 4 = Some 1
+  | _, _, _ => False
+  end.
+Proof. vm_compute. repeat split. Qed.
+
 Print Assumptions C16_fold_invariant.
 Print Assumptions C16_components_iff_path.
 Print Assumptions C16_labels_1_to_m.
@@ -93,5 +129,7 @@ Print Assumptions C16_isolated_singletons.
 Print Assumptions C16_asym_rejected.
 Print Assumptions C16_number_of_components_def.
 Print Assumptions C16_number_is_class_count.
-Print Assumptions C16_agrees_with_distance.
 Print Assumptions C16_agrees_with_distance_bin.
+Print Assumptions C16_agrees_with_reachdist.
+Print Assumptions C16_agrees_with_breadthdist.
+Print Assumptions C16_reach_breadth_diag.
